@@ -540,6 +540,12 @@ func (c *Ctx) pfbExpandOnce(fn *ssa.Function, H *ssa.BasicBlock, n int, rem int6
 			cells = append(cells, symV(fmt.Sprintf("old%d", i)))
 		}
 		buf := ev.newList(cells)
+		// the bytes of the segment (and of the caller's buffer) are 8-bit values: a mask that
+		// cannot clear a bit of its operand is dropped ((v>>4)&0x0f is v>>4)
+		nibW := map[string]uint{}
+		for i := 0; i < n; i++ {
+			nibW[fmt.Sprintf("d%d", i)], nibW[fmt.Sprintf("old%d", i)] = 8, 8
+		}
 		ev.noInline = func(g *ssa.Function) bool {
 			// the nibble encoder: a function from one byte to one byte
 			sig := g.Signature
@@ -570,7 +576,7 @@ func (c *Ctx) pfbExpandOnce(fn *ssa.Function, H *ssa.BasicBlock, n int, rem int6
 				// the nibble encoder as a table: a constant string indexed by a value that is not fixed
 				if len(args) == 3 && args[0].s == "strindex" && args[1].k == svString && args[2].k == svSym {
 					enc.tables[args[1].s] = true
-					return symV("hex(" + args[2].String() + ")"), true
+					return symV("hex(" + dropIdleMasksY7(args[2], nibW).String() + ")"), true
 				}
 				return sv{}, false
 			}
@@ -582,7 +588,7 @@ func (c *Ctx) pfbExpandOnce(fn *ssa.Function, H *ssa.BasicBlock, n int, rem int6
 			}
 			if g := call.Common().StaticCallee(); g != nil && c.inModule(g) && ev.noInline(g) && len(args) == 1 {
 				enc.fns[g] = true
-				return symV("hex(" + args[0].String() + ")"), true
+				return symV("hex(" + dropIdleMasksY7(args[0], nibW).String() + ")"), true
 			}
 			return sv{}, false
 		}
